@@ -45,6 +45,7 @@ type Executor struct {
 	ConcatTerms   []*Term
 	loopEnv       func(st *State) *CEnv
 	GlobalFacts   []*Term
+	Defs          map[string]*Term // definitional names (buffer contents) -> defining expression
 	LoopErrors    []string
 	GhostHook     func(ex *Executor, fn *ssa.Function, args []Value, st *State, from int)
 	sentinels     []*Term
